@@ -27,6 +27,8 @@ Weird ==
     \cup {[k |-> "num", bits |-> bb, unit |-> u] : bb \in {Nan, Inf, "0xfff0000000000000", "0x0000000000000001", "0x8000000000000000"},
                                                    u \in {<<>>, <<T("m")>>, <<T("%")>>}}
     \cup {Coord(Nan, Inf), Coord("0xfff0000000000000", "0x8000000000000000")}
+    \* times on a leap second (chrono: second 59 with 1 000 000 000 .. 1 999 999 999 ns), as `23:59:60` decodes to
+    \cup {Time(23, 59, 59, 1000000000), Time(23, 59, 59, 1500000000), Time(12, 30, 59, 1999999999)}
     \cup {Date(10000, 1, 1), Date(99999, 12, 31)}
     \cup {DT(2021, 6, 15, 43200, 0, 0, "UTC")}
 
